@@ -35,11 +35,12 @@ QUICK_PARTNERS = ['all']
 BOUND = ('one fresh application, 2..3 threads, one request per thread out of %d request/handler kinds (%s). '
          'Schedules: (S1) statement granularity (every traced line of the ombott package is a hand-over point), ONE '
          'preemption: thread 0 is stopped after i statements for EVERY i, thread 1 serves its whole request in the window, '
-         'thread 0 finishes -- quick: every kind against the partner `all` (touches every request/response slot) in both '
-         'roles; thorough: all ordered pairs of kinds. (S2) two preemptions [0:i][1:j][0:rest][1:rest] on a grid of (i,j) '
-         '(stride: quick ~1/12 of the statements, thorough ~1/30 per axis) for pairs with `all` (quick) / all pairs on a coarser grid '
-         '(thorough). (S3) explicit points only (hooks, handler steps, error handler, body generator, start_response): ALL '
-         'interleavings of two threads for pairs with `all` (quick) / all pairs (thorough). (S4) three threads, '
+         'thread 0 finishes -- quick: every kind stopped at EVERY statement with the partner `all` (touches every request/response slot) in the '
+         'window, and `all` stopped at every 4th statement per partner kind (offsets rotate over the 21 partners); thorough: all ordered pairs of kinds (pairs without `all`: every 3rd statement, offsets rotating over the partners). (S2) two preemptions [0:i][1:j][0:rest][1:rest] on a grid of (i,j) '
+         '(quick 8x8, thorough 30x30 positions) for pairs with `all` (quick) / all pairs on a coarser grid '
+         '(thorough). (S3) explicit points only (hooks, handler steps, error handler, body generator, start_response, body chunks): '
+         'every schedule with at most three hand-overs [0:i][1:j][0:k][1:rest][0:rest] for pairs with `all` (quick) / all pairs '
+         '(thorough), and ALL interleavings of two threads for pairs with `all` having at most 13000 of them (thorough). (S4) three threads, '
          'statement granularity, nested windows [0:i][1:j][2:all][1:rest][0:rest] on a grid, kinds drawn by seed. '
          '(S5) free race of 3 threads, switch interval 1e-6 s, 30 (quick) / 200 (thorough) rounds, kinds drawn by seed.'
          % (len(KINDS), ', '.join(KINDS)))
@@ -118,6 +119,7 @@ def view(app, ctx, tag, body=False, full=False):
         qs=_safe(lambda: rq.query_string),
         status=_safe(lambda: (rs.status_code, rs.status_line)),
         headerlist=_safe(lambda: sorted(rs.headerlist)),
+        rbody=_safe(lambda: repr(rs.body)[:80]),
     )
     if full:
         v.update(
@@ -139,7 +141,7 @@ def view(app, ctx, tag, body=False, full=False):
 # ---------------------------------------------------------------------------------------------
 def make_app(ctx):
     import ombott
-    app = ombott.Ombott({'max_body_size': 256, 'max_memfile_size': 64})
+    app = ombott.Ombott({'max_body_size': 280, 'max_memfile_size': 160})
     request, response = app.request, app.response
     P = ctx.point
 
@@ -168,6 +170,7 @@ def make_app(ctx):
     def h_all(rid):
         V('h0')
         response.status = 203
+        response.body = 'draft:' + rid
         response.headers['X-Id'] = rid
         response.headers.append('X-Multi', rid + 'a')
         P('h1')
@@ -351,7 +354,7 @@ def make_request(kind, rid):
     if kind == 'crash':
         return make_environ('/crash/' + rid, query=q, headers=hdr, extra=extra)
     if kind == 'body':
-        return make_environ('/body/' + rid, 'POST', query=q, body=b'payload-of-' + rb * 30, headers=hdr, extra=extra)
+        return make_environ('/body/' + rid, 'POST', query=q, body=b'payload-of-' + rb * 90, headers=hdr, extra=extra)
     if kind == 'chunked':
         wire = chunk_encode([b'chunk-', rb * 25, b'-end'])
         return make_environ('/body/' + rid, 'POST', query=q, stream=FragStream(wire, [3, 1], 7), chunked=True,
@@ -431,7 +434,7 @@ def _measure():
         for traced in (True, False):
             n = 0
             for _ in range(2):   # the second run is the warm one
-                sched = tc.Sched(1, [], trace_prefix=prefix if traced else None)
+                sched = tc.Sched(1, [], trace_prefix=prefix if traced else None, count_all=True)
                 ctx = Ctx(sched)
                 app = make_app(ctx)
                 sched.run([lambda: serve_one(app, ctx, kind, 'r0')])
@@ -442,6 +445,11 @@ def _measure():
 
 def setup():
     _measure()
+
+
+def _ncr(n, r):
+    import math
+    return math.comb(n, r)
 
 
 def _grid(n, parts):
@@ -461,23 +469,39 @@ def gen_cases(tier, seed):
     else:
         pairs = list(itertools.product(KINDS, repeat=2))
     # S1: one preemption at every statement
-    for k0, k1 in pairs:
-        for i in range(1, cnt[(k0, True)]):
+    for pi, (k0, k1) in enumerate(pairs):
+        # quick: `all` as the victim is cut at every 4th statement per partner (offset by partner: all statements overall)
+        # thorough: pairs without `all` are cut at every 3rd statement per partner (offsets rotate likewise)
+        if quick:
+            stride, first = (4, 1 + pi % 4) if (k0 in QUICK_PARTNERS and k1 not in QUICK_PARTNERS) else (1, 1)
+        else:
+            stride, first = (1, 1) if (k0 in QUICK_PARTNERS or k1 in QUICK_PARTNERS) else (3, 1 + pi % 3)
+        for i in range(first, cnt[(k0, True)], stride):
             yield dict(mode='sched', kinds=[k0, k1], trace=1, segs=[[0, i], [1, -1], [0, -1]], pts=[cnt[(k0, True)], cnt[(k1, True)]])
     # S2: two preemptions on a grid
     s2pairs = pairs if quick else list(itertools.product(KINDS, repeat=2))
     for k0, k1 in s2pairs:
         both_all = k0 in QUICK_PARTNERS or k1 in QUICK_PARTNERS
-        g = (12 if both_all else 5) if quick else (30 if both_all else 8)
+        g = (8 if both_all else 5) if quick else (30 if both_all else 8)
         for i in _grid(cnt[(k0, True)], g):
             for j in _grid(cnt[(k1, True)], g):
                 yield dict(mode='sched', kinds=[k0, k1], trace=1, segs=[[0, i], [1, j], [0, -1], [1, -1]],
                            pts=[cnt[(k0, True)], cnt[(k1, True)]])
-    # S3: explicit points, all interleavings of two threads
+    # S3: explicit points only
     for k0, k1 in pairs:
         p0, p1 = cnt[(k0, False)], cnt[(k1, False)]
-        for segs in tc.interleavings([p0 + 1, p1 + 1]):
-            yield dict(mode='sched', kinds=[k0, k1], trace=0, segs=segs, pts=[p0, p1])
+        with_all = k0 in QUICK_PARTNERS or k1 in QUICK_PARTNERS
+        if with_all and not quick and _ncr(p0 + p1 + 2, p0 + 1) <= 13000:
+            for segs in tc.interleavings([p0 + 1, p1 + 1]):
+                yield dict(mode='sched', kinds=[k0, k1], trace=0, segs=segs, pts=[p0, p1])
+        else:
+            # at most three hand-overs away from an unfinished thread: [0:i][1:j][0:k] then run out
+            for i in range(0, p0):
+                for j in range(0, p1):
+                    yield dict(mode='sched', kinds=[k0, k1], trace=0, segs=[[0, i], [1, j], [0, -1], [1, -1]], pts=[p0, p1])
+                    for k in range(0, p0 - i - 1):
+                        yield dict(mode='sched', kinds=[k0, k1], trace=0, segs=[[0, i], [1, j], [0, k], [1, -1], [0, -1]],
+                                   pts=[p0, p1])
     # S4: three threads, nested windows
     for _ in range(40 if quick else 600):
         ks = [rnd.choice(KINDS), rnd.choice(KINDS), rnd.choice(KINDS)]
@@ -499,7 +523,18 @@ def gen_cases(tier, seed):
 # ---------------------------------------------------------------------------------------------
 # execution
 # ---------------------------------------------------------------------------------------------
+_REF = {}
+
+
 def _reference(kind, rid):
+    """The request served alone by a fresh application on a new thread.  Memoised per process: it is a function of
+    (kind, rid) only (a fresh application and a fresh thread every time it is computed)."""
+    if (kind, rid) not in _REF:
+        _REF[(kind, rid)] = _reference_uncached(kind, rid)
+    return _REF[(kind, rid)]
+
+
+def _reference_uncached(kind, rid):
     ctx = Ctx(None)
     app = make_app(ctx)
     done, res, exc = tc.run_alone(lambda: serve_one(app, ctx, kind, rid))
@@ -582,3 +617,8 @@ def _run_stress(case):
         return None
     finally:
         sys.setswitchinterval(old)
+
+
+# No defect class of the unchanged tree is known to violate this contract: the shared-store defect D10 (C10) needs a
+# second Request/Response instance to be initialised while a request is served, which never happens here.
+FINDINGS = {}
